@@ -160,6 +160,128 @@ def k_unequal(run, case):
               key="ape:unequal-accepted")
 
 
+# ------------------------------------------------------------------ L2: API sessions
+def k_session(run, case):
+    """
+    One process, one reference object, several evaluations (the "one ground truth, several
+    estimates / several settings" loop of an API user): every evaluation associates the same
+    reference object with an estimate (sync.associate_trajectories returns new synchronized
+    objects) and calls main_ape.ape() on the associated pair with its own options.  Every
+    evaluation is judged on its own against the generating arrays: what an earlier evaluation
+    did (projection, alignment, unit change) must not leak into a later one.
+    """
+    from evo import main_ape
+    from evo.core import metrics, sync
+    from evo.core.trajectory import Plane
+    rng = run.rng(case)
+    n = int(rng.integers(8, 60))
+    base = gen.traj_arrays(rng, n, pos_cls=["walk", "circle", "utm", "tiny"][rng.integers(4)],
+                           rot_cls=["smooth", "uniform", "mixed"][rng.integers(3)],
+                           stamp_cls=["epoch", "small", "dyadic"][rng.integers(3)])
+    for k in range(1, n):
+        if base["t"][k] <= base["t"][k - 1]:
+            base["t"][k] = base["t"][k - 1] + 1e-3
+    dt = float(np.min(np.diff(base["t"])))
+
+    def subset(frac_lo):
+        keep = rng.random(n) < rng.uniform(frac_lo, 1.0)
+        keep[rng.choice(n, size=4, replace=False)] = True
+        return np.nonzero(keep)[0]
+
+    ia = subset(0.6)
+    ref = {"p": base["p"][ia], "R": base["R"][ia], "t": base["t"][ia]}
+    m_ref = "se3" if rng.random() < .6 else "xyzq"
+    t_ref = gen.make_evo(ref, m_ref, True, flavour=gen.rand_flavour(rng))
+    aged = gen.age(rng, t_ref, p=0.8)
+    snap_ref = contracts.field_snapshot(t_ref)
+    ests = []
+    for _ in range(int(rng.integers(1, 3))):
+        ib = subset(0.5)
+        e = gen.perturbed_estimate(rng, {"p": base["p"][ib], "R": base["R"][ib], "t": base["t"][ib],
+                                         "cls": base["cls"]}, hostile=bool(rng.random() < .5))
+        e["t"] = e["t"] + (0.0 if rng.random() < .4 else rng.uniform(-0.2, 0.2, size=len(ib)) * dt)
+        if rng.random() < .5:
+            A = gen.rand_se3(rng, tscale=float(np.std(base["p"])) + 1e-3)
+            sc = 10.0**rng.uniform(-0.3, 0.3)
+            e["p"] = (A[:3, :3] @ e["p"].T).T / sc + A[:3, 3]
+            e["R"] = np.array([A[:3, :3] @ Rk for Rk in e["R"]])
+        obj = gen.make_evo(e, "se3" if rng.random() < .5 else "xyzq", True, flavour=gen.rand_flavour(rng))
+        gen.age(rng, obj)
+        ests.append((e, obj, contracts.field_snapshot(obj)))
+    n_eval = int(rng.integers(2, 5))
+    run.seen(case, core.digest(ref["p"], ref["R"], [e[0]["p"] for e in ests], n_eval),
+             cls=["L2 session of %d evaluations" % n_eval, "L2 reference storage:" + m_ref,
+                  "L2 reference read before: " + ("yes" if aged else "no")],
+             sample={"n_ref": len(ia), "n_est": [len(e[0]["p"]) for e in ests], "evaluations": n_eval})
+    history = []
+    for j in range(n_eval):
+        e_arr, t_est, snap_est = ests[int(rng.integers(len(ests)))]
+        relation = RELS[rng.integers(6)]
+        plane = [None, None, "xy", "xz", "yz"][rng.integers(5)]
+        align = bool(rng.random() < .3)
+        o = {"align": align, "correct_scale": bool(rng.random() < .3), "n_to_align": -1,
+             "align_origin": bool(not align and rng.random() < .15), "project_to_plane": plane,
+             "t_max_diff": 0.45 * dt}
+        unit = None
+        if rng.random() < .15:
+            unit = ["mm", "cm", "m", "km", "deg", "rad"][rng.integers(6)]
+        history.append("%s%s%s" % (relation, " +project " + plane if plane else "",
+                                   " +align" if (o["align"] or o["correct_scale"] or o["align_origin"]) else ""))
+        out = contracts.outcome_of(sync.associate_trajectories, t_ref, t_est, max_diff=o["t_max_diff"])
+        # ---- reference
+        try:
+            P = pipeline.Pipeline(ShadowTrajectory(ref["R"], ref["p"], ref["t"]),
+                                  ShadowTrajectory(e_arr["R"], e_arr["p"], e_arr["t"]), True)
+            P.crop_and_associate(None, None, o["t_max_diff"], 0.0)
+            P.align(o["align"], o["correct_scale"], -1, o["align_origin"])
+            P.project(plane)
+            factor = unit_factor(UNIT_OF[relation], unit)
+        except pipeline.Ambiguous as a:
+            run.hit("L2 ambiguous (not judged): " + str(a))
+            continue
+        except pipeline.Refuse as r:
+            run.hit("L2 refusals (not judged in sessions)")
+            continue
+        if not run.check(out[0] == "ok", "session: association succeeds", case,
+                         "associate_trajectories raised %r" % (out[1], ), key="session:associate"):
+            return
+        r_obj, e_obj = out[1]
+        kw = dict(align=o["align"], correct_scale=o["correct_scale"], align_origin=o["align_origin"],
+                  project_to_plane=Plane(plane) if plane else None,
+                  change_unit=metrics.Unit(unit) if unit else None)
+        out = contracts.outcome_of(main_ape.ape, r_obj, e_obj, metrics.PoseRelation[relation], **kw)
+        if not run.check(out[0] == "ok", "session: evaluation succeeds", case,
+                         "evaluation %d (%s) raised %r" % (j, history[-1], out[1]), key="session:failure"):
+            return
+        res = out[1]
+        err = np.asarray(res.np_arrays["error_array"], dtype=float)
+        vr, ve = gen.read_views(r_obj), gen.read_views(e_obj)
+        stored = (ShadowTrajectory(np.array([rm.rot_from_quat_wxyz(q) for q in vr["q"]]), vr["p"], vr["t"]),
+                  ShadowTrajectory(np.array([rm.rot_from_quat_wxyz(q) for q in ve["q"]]), ve["p"], ve["t"]))
+        if not compare_processed(run, case, P, stored, o, "session"):
+            return
+        ref_s, est_s = stored
+        if not run.check(err.shape == (est_s.n, ), "session: one value per associated pose pair", case,
+                         "error_array has %s values for %d pose pairs" % (err.shape, est_s.n),
+                         key="session:length"):
+            return
+        want = rm.ape_definition(relation, ref_s.R, ref_s.p, est_s.R, est_s.p) * factor
+        tol = tol_for(relation, ref_s.p, est_s.p, rotation_defect(ref_s.R, est_s.R)) * abs(factor)
+        dev = float(np.max(np.abs(err - want))) if len(err) else 0.0
+        run.note_max("max_deviation_over_tolerance_L2", dev / tol)
+        run.check(dev <= tol, "session: every evaluation == definition on its own associated pair", case,
+                  "evaluation %d of a session (%s; earlier: %s) deviates from the definition by %g (tol %g)" %
+                  (j, history[-1], history[:-1], dev, tol), key="session:not-definition")
+        bad = contracts.snapshot_diff(snap_ref, contracts.field_snapshot(t_ref)) + \
+            contracts.snapshot_diff(snap_est, contracts.field_snapshot(t_est))
+        run.check(not bad, "session: the caller's trajectories are unchanged by an evaluation", case,
+                  "evaluation %d (%s) on associated copies modified the original objects: %s" %
+                  (j, history[-1], bad), key="session:originals-modified")
+        if plane and any(not h.count("+project") for h in history[:-1]) or \
+                (not plane and any(h.count("+project") for h in history[:-1])):
+            run.hit("L2 evaluations with and without projection in one session")
+
+
 # ------------------------------------------------------------------ L3 helpers (shared with C02/C12)
 def make_file_pair(rng, fmt, workdir, n=None, pos_cls=None):
     """write a reference/estimate file pair; returns dict with paths and ground-truth arrays"""
@@ -318,6 +440,21 @@ def draw_common_options(rng, fp):
                   ["--plot_full_ref"], ["--plot_colormap_max", "3"]):
         if rng.random() < .08:
             argv += extra
+    # plots are produced before the results are stored: colour-map limits inside / outside the
+    # value range, percentile limits, every plot mode - none of it may influence stored values
+    if rng.random() < .12:
+        argv += [["--save_plot", "plot.png"], ["--save_plot", "plot.pdf"], ["--serialize_plot", "plot.ser"],
+                 ["--plot"]][rng.integers(4)]
+        if rng.random() < .5:
+            argv += ["--plot_mode", ["xy", "xz", "yx", "yz", "zx", "zy", "xyz"][rng.integers(7)]]
+        u = rng.random()
+        if u < .3:
+            argv += ["--plot_colormap_max", repr(float(fp["ext"] * 10.0**rng.uniform(-3, 0)))]
+        elif u < .5:
+            argv += ["--plot_colormap_min", repr(float(fp["ext"] * 10.0**rng.uniform(-3, 0)))]
+        elif u < .75:
+            argv += ["--plot_colormap_max_percentile", repr(float(rng.uniform(5, 99)))]
+        o["plot"] = True
     return argv, o
 
 
@@ -512,6 +649,12 @@ def ape_cli(run, case, rng, work):
                   key="cli:refusal-mismatch", argv=argv)
         run.hit("L3 refusals agreed" if got == r.kind else "L3 refusal mismatch")
         return None
+    if got is not None and o.get("plot") and not os.path.exists(os.path.join(work, "out.zip")) and \
+            ("minvalue must be less than or equal to maxvalue" in str(res.exc) or case.get("exe")):
+        # a colour-map limit on the wrong side of the value range makes the plot fail before
+        # anything is stored: no values, nothing to judge
+        run.hit("L3 plot refused inconsistent colour-map limits before storing (not judged)")
+        return None
     if not run.check(got is None, "evo_ape succeeds on valid input", case,
                      "evo_ape failed with %s: %s (argv %s)" % (got, res.exc, argv),
                      key="cli:unexpected-failure", argv=argv):
@@ -562,7 +705,7 @@ def unit_factor(base_unit, unit):
 k_cli = with_workdir(ape_cli)
 
 
-KINDS = {"direct": k_direct, "unequal": k_unequal, "cli": k_cli}
+KINDS = {"direct": k_direct, "unequal": k_unequal, "cli": k_cli, "session": k_session}
 
 
 def main(run):
@@ -573,13 +716,16 @@ def main(run):
         k_direct(run, run.case("direct", i))
     for i in run.mine({"quick": 100, "thorough": 2000}[run.tier]):
         k_unequal(run, run.case("unequal", i))
+    for i in run.mine({"quick": 300, "thorough": 6000}[run.tier]):
+        k_session(run, run.case("session", i))
     for i in run.mine({"quick": 400, "thorough": 8000}[run.tier]):
         k_cli(run, run.case("cli", i))
     for i in run.mine({"quick": 8, "thorough": 160}[run.tier]):
         k_cli(run, run.case("cli", 10**6 + i, real=True))
     for i in run.mine({"quick": 6, "thorough": 60}[run.tier]):
         k_cli(run, run.case("cli", 2 * 10**6 + i, exe=True))
-    run.need("L3 runs through the real executable","APE value == definition applied to its own pose pair", "APE: unequal lengths refused",
+    run.need("L3 runs through the real executable", "session: every evaluation == definition on its own associated pair",
+             "L2 evaluations with and without projection in one session","APE value == definition applied to its own pose pair", "APE: unequal lengths refused",
              "APE unchanged when ref/est swapped", "APE unchanged under a common rigid motion",
              "APE zero when trajectories coincide", "APE: exactly one value per pose",
              "evo_ape values == definition on the surviving processed pairs",
